@@ -389,11 +389,18 @@ func viol(key, what string, w interface{}) {
 	}
 }
 
+var emitted = map[string]bool{}
+
+// flushViolations is called after every phase, so that a later phase that dies or is stopped by the watchdog does
+// not swallow what earlier phases found; a key is reported once per probe run.
 func flushViolations() {
 	sort.Strings(vaggKeys)
 	for _, k := range vaggKeys {
 		a := vaggs[k]
-		p.Violation(k, fmt.Sprintf("%s  [%d case(s) of this class in this run]", a.what, a.n), a.w)
+		if !emitted[k] {
+			emitted[k] = true
+			p.Violation(k, fmt.Sprintf("%s  [%d case(s) of this class so far in this run]", a.what, a.n), a.w)
+		}
 	}
 }
 
@@ -405,6 +412,10 @@ func flushPanics() {
 	sort.Strings(keys)
 	for _, k := range keys {
 		a := panics[k]
+		if emitted[k] {
+			continue
+		}
+		emitted[k] = true
 		p.Violation(k, fmt.Sprintf("%s(uncompress=%v) panicked on a %d-byte input (%d inputs of this class): %s; minimal witness hex=%s spare-capacity=%v",
 			a.fn, a.unc, len(a.witness), a.count, a.msg, hexTrunc(a.witness), a.slack),
 			map[string]interface{}{"fn": a.fn, "input_hex": hexTrunc(a.witness), "input_len": len(a.witness), "uncompress": a.unc,
@@ -461,10 +472,10 @@ func declaredSize(in []byte) uint64 {
 	switch (in[0] >> 3) & 3 {
 	case 0:
 	case 1:
-		if len(body) < 4 || binary.LittleEndian.Uint32(body[:4]) != crc32.ChecksumIEEE(body[4:]) {
-			return 0 // rejected before any decoder runs
+		if len(body) < 4 {
+			return 0
 		}
-		body = body[4:]
+		body = body[4:] // whether or not the CRC matches: the filter must not depend on the checksum stage working
 	default:
 		return 0
 	}
@@ -1365,7 +1376,9 @@ func main() {
 		phaseHostile()
 	default:
 		phaseRoundtrip()
+		flushViolations()
 		phaseCorrupt()
+		flushViolations()
 		phaseHostile()
 	}
 	flushViolations()
